@@ -11,6 +11,8 @@ CANON = [
     (re.compile(r'^(std::__detail::)?_Node_(const_)?iterator(_base)?<' + PAIR + r'.*>$'), 'umap_it'),
     (re.compile(r'^(std::)?unordered_map<QString,(QXmpp::Private::)?IqState>$'), 'umap'),
     (re.compile(r'^(typename )?std::remove_reference<(std::)?unordered_map<QString,(QXmpp::Private::)?IqState>>::type$'), 'umap'),
+    (re.compile(r'^(std::)?unordered_map<QString,(QXmpp::Private::)?IqState>::node_type$'), 'umap_node'),
+    (re.compile(r'^(std::)?_Node_handle<QString,' + PAIR + r',.*>$'), 'umap_node'),
     (re.compile(r'^' + PAIR + r'$'), 'iqpair'),
     (re.compile(r'^std::pair<(std::__detail::_Node_iterator<' + PAIR + r',false,true>|iterator),bool>$'), 'umap_emplace_ret'),
     (re.compile(r'^QXmppPromise<(QXmpp::Private::IqResult|IqResult|std::variant<QDomElement,QXmppError>)>$'), 'qpromise'),
@@ -225,9 +227,18 @@ def umap_move_construct(lw, n, target):
     return dst
 
 
+def umap_extract(lw, node, args):
+    """m.extract(iterator) -> node handle (the key overload is not modelled)"""
+    if lw.tkey(lw.skip(node['inner'][1])) != 'umap_it':
+        raise Unsupported('unordered_map::extract(key) (only extract(iterator) is modelled)')
+    t = lw.newtmp()
+    lw.pre.append('umap_node %s; umap_extract(&%s, %s);' % (t, t, ', '.join(args)))
+    return t
+
+
 def profile():
     p = opaque_profile(
-        types={'umap_it': 'umap_it', 'umap': 'umap', 'iqpair': 'iqpair', 'umap_emplace_ret': 'umap_emplace_ret', 'qpromise': 'qpromise', 'qtask': 'qtask',
+        types={'umap_it': 'umap_it', 'umap': 'umap', 'umap_node': 'umap_node', 'iqpair': 'iqpair', 'umap_emplace_ret': 'umap_emplace_ret', 'qpromise': 'qpromise', 'qtask': 'qtask',
                'IqResult': 'IqResult', 'optErr': 'optErr', 'stanzaerr': 'stanzaerr', 'std::any': 'qany', 'QXmppError': 'QXmppError', 'QXmppIq': 'QXmppIq',
                'QXmpp::Private::IqState': 'IqState', 'IqState': 'IqState',
                'std::unordered_map<QString,IqState>': 'umap', 'std::unordered_map<QString,QXmpp::Private::IqState>': 'umap',
@@ -238,7 +249,7 @@ def profile():
                'QXmppOutgoingClient': 'QXmppOutgoingClient', 'QXmppOutgoingClientPrivate': 'QXmppOutgoingClientPrivate',
                'std::unique_ptr<QXmppOutgoingClientPrivate>': 'QXmppOutgoingClientPrivate*', 'std::unique_ptr<QXmppOutgoingClientPrivate>::pointer': 'QXmppOutgoingClientPrivate*',
                'QXmpp::SendError': 'int', 'QXmppStanza::Error::Type': 'int', 'QXmppStanza::Error::Condition': 'int'},
-        class_types={'umap', 'iqpair', 'umap_emplace_ret', 'qpromise', 'qtask', 'IqResult', 'optErr', 'qany', 'QXmppError', 'QXmppIq', 'IqState',
+        class_types={'umap', 'umap_node', 'iqpair', 'umap_emplace_ret', 'qpromise', 'qtask', 'IqResult', 'optErr', 'qany', 'QXmppError', 'QXmppIq', 'IqState',
                      'OutgoingIqManager', 'SessionBegin', 'SessionEnd', 'QXmppPacket', 'StreamAckManager', 'SendResult', 'sendtask',
                      'QXmppOutgoingClient', 'QXmppOutgoingClientPrivate'},
         calls={
@@ -248,6 +259,10 @@ def profile():
             'umap::begin/0': ('fn', 'umap_begin'),
             'umap::erase/1': ('fn', 'umap_erase'),
             'umap::clear/0': ('fn', 'umap_clear'),
+            'umap::extract/1': umap_extract,
+            'umap_node::mapped/0': ('expr', '*umap_node_mapped({0})'),
+            'umap_node::key/0': ('expr', 'umap_node_key({0})'),
+            'umap_node::empty/0': ('expr', '!({0})->has'),
             'umap::emplace/2': ('fnret', 'umap_emplace', 'umap_emplace_ret'),
             'op==:umap_it:umap_it': ('expr', '{0} == {1}'),
             'op->:umap_it': ('expr', '{0}'),
